@@ -17,7 +17,11 @@
                                                   then ReleaseObject's critical section, then the
                                                   slab deletion outside the lock;
                                                   heap: ~Item (members released in reverse order), free.
-   [SetRefOld] keeps the order of the unrepaired code (UnrefItem ; store ; inc) for the refutation.
+   A reference slot holds a pointer and the "is ref-counting" bit; a non-counting reference
+   (DummyRef, SetRef(item,false)) never touches the count and keeps nothing alive.  SetRef on the
+   same item converts between the two kinds (start counting: increment; stop counting: decrement
+   WITHOUT release).  Operations dereference an object only through a counting reference.
+   [OAssignOld] keeps the order of the unrepaired code (UnrefItem ; store ; inc) for the refutation.
 
    Discipline built into the operations (the data-race freedom the Ref class documents): a thread
    writes only its own stack slots and member slots of an object that is private to it
@@ -32,9 +36,11 @@ Local Open Scope nat_scope.
 
 Inductive ostate := Live | Releasing | Pooled | Dead.
 
+Definition ref := option (nat * bool).   (* pointer, REF_BIT_ISREFCOUNTING *)
+
 Record obj := mkObj {
   o_cnt : nat;                     (* RefCountable::_refCount *)
-  o_mem : list (option nat);       (* member Ref slots *)
+  o_mem : list ref;                (* member Ref slots *)
   o_val : nat;                     (* payload *)
   o_st : ostate;
   o_pooled : bool;                 (* lives in a slab (GetManager() != NULL while in use) *)
@@ -47,7 +53,8 @@ Inductive rloc := RStk (i : nat) | RMem (o j : nat).
 
 Inductive op :=
 | ONew (i : nat) (pooled : bool)
-| OAssign (dst src : loc)
+| OAssign (dst src : loc)            (* dst = src : SetRef(src(), src.IsRefCounting()) *)
+| OAlias (dst src : loc)             (* dst.SetRef(src(), false) : non-counting reference *)
 | OAssignOld (dst src : loc)        (* SetRef in the unrepaired order; used by the refutation only *)
 | OReset (l : loc)
 | OSwap (a b : loc)
@@ -58,15 +65,17 @@ Inductive op :=
 Inductive act :=
 | AInc (o : nat) (src : option rloc)       (* IncrementRefCount; src = the slot the pointer was read from *)
 | AUnref (l : rloc)                        (* UnrefItem on a slot: clear it, decrement-and-test *)
-| AStore (l : rloc) (v : option nat)       (* SetPointerAndBits *)
-| AIncSwap (l : rloc) (o : nat) (src : option rloc)  (* temporary retains o, then SwapContents with l *)
+| AUncount (l : rloc)                      (* same item, stop counting: decrement WITHOUT release, clear the bit *)
+| AStore (l : rloc) (v : ref)              (* SetPointerAndBits *)
+| AIncSwap (l : rloc) (o : nat) (c : bool) (src : option rloc)
+                                           (* temporary takes (o,c) (increment iff c), then SwapContents with l *)
 | ADec (o : nat)                           (* the temporary's destructor: decrement-and-test *)
 | ARel (o n : nat)                         (* releasing o: n member slots already processed *)
 | APoolObt (l : rloc)                      (* ObtainObject critical section, then SetRef into l *)
 | ADrain                                   (* Drain critical section *)
 | ASlabDel (s : slab).                     (* delete slab, outside the lock *)
 
-Record thread := mkThr { t_stk : list (option nat); t_todo : list act; t_prog : list op }.
+Record thread := mkThr { t_stk : list ref; t_todo : list act; t_prog : list op }.
 
 Record state := mkSt { s_heap : list obj; s_thr : list thread; s_pool : pool }.
 
@@ -89,7 +98,7 @@ Definition dthr : thread := mkThr [] [] [].
 
 Definition get_obj (h : list obj) (o : nat) : obj := nth o h dobj.
 Definition set_cnt (ob : obj) (c : nat) := mkObj c (o_mem ob) (o_val ob) (o_st ob) (o_pooled ob) (o_births ob) (o_deaths ob).
-Definition set_mem (ob : obj) (m : list (option nat)) := mkObj (o_cnt ob) m (o_val ob) (o_st ob) (o_pooled ob) (o_births ob) (o_deaths ob).
+Definition set_mem (ob : obj) (m : list ref) := mkObj (o_cnt ob) m (o_val ob) (o_st ob) (o_pooled ob) (o_births ob) (o_deaths ob).
 Definition set_val (ob : obj) (v : nat) := mkObj (o_cnt ob) (o_mem ob) v (o_st ob) (o_pooled ob) (o_births ob) (o_deaths ob).
 Definition set_st (ob : obj) (st : ostate) := mkObj (o_cnt ob) (o_mem ob) (o_val ob) st (o_pooled ob) (o_births ob) (o_deaths ob).
 Definition born (ob : obj) := mkObj (o_cnt ob) (o_mem ob) (o_val ob) Live (o_pooled ob) (S (o_births ob)) (o_deaths ob).
@@ -101,6 +110,9 @@ Definition is_releasing (ob : obj) : bool := match o_st ob with Releasing => tru
 
 Definition fresh_obj (K : nat) (pooled : bool) (st : ostate) : obj := mkObj 0 (repeat None K) 0 st pooled 0 0.
 
+Definition ptr (r : ref) : option nat := match r with Some (o, _) => Some o | None => None end.
+Definition counting (r : ref) : bool := match r with Some (_, c) => c | None => false end.
+
 Definition opt_eqb (a b : option nat) : bool :=
   match a, b with
   | Some x, Some y => x =? y
@@ -108,45 +120,46 @@ Definition opt_eqb (a b : option nat) : bool :=
   | _, _ => false
   end.
 
-Definition all_none (l : list (option nat)) : bool := forallb (fun x => match x with None => true | Some _ => false end) l.
+Definition all_none (l : list ref) : bool := forallb (fun x => match x with None => true | Some _ => false end) l.
 
 (* ---------------------------------------------------------------- slots *)
 
-Definition read_slot (h : list obj) (stk : list (option nat)) (l : rloc) : option nat :=
+Definition read_slot (h : list obj) (stk : list ref) (l : rloc) : ref :=
   match l with
   | RStk i => nth i stk None
   | RMem o j => nth j (o_mem (get_obj h o)) None
   end.
 
-Definition write_slot (h : list obj) (stk : list (option nat)) (l : rloc) (v : option nat)
-  : list obj * list (option nat) :=
+Definition write_slot (h : list obj) (stk : list ref) (l : rloc) (v : ref)
+  : list obj * list ref :=
   match l with
   | RStk i => (h, upd stk i v)
   | RMem o j => (upd h o (set_mem (get_obj h o) (upd (o_mem (get_obj h o)) j v)), stk)
   end.
 
-(* resolve a program location for reading: the slot and its current content *)
-Definition resolve_r (h : list obj) (stk : list (option nat)) (l : loc) : option (rloc * option nat) :=
+(* resolve a program location for reading: the slot and its current content.  A member slot is
+   reached only through a counting reference on the own stack. *)
+Definition resolve_r (h : list obj) (stk : list ref) (l : loc) : option (rloc * ref) :=
   match l with
   | LStk i => if i <? length stk then Some (RStk i, nth i stk None) else None
   | LMem i j =>
       match nth i stk None with
-      | Some q => if j <? length (o_mem (get_obj h q)) then Some (RMem q j, nth j (o_mem (get_obj h q)) None) else None
-      | None => None
+      | Some (q, true) => if j <? length (o_mem (get_obj h q)) then Some (RMem q j, nth j (o_mem (get_obj h q)) None) else None
+      | _ => None
       end
   end.
 
-(* resolve for writing the value v: a member slot only of an object private to this thread
-   (IsRefPrivate(): count = 1), and never a reference to the object itself *)
-Definition resolve_w (h : list obj) (stk : list (option nat)) (l : loc) (v : option nat) : option (rloc * option nat) :=
+(* resolve for writing the pointer v: a member slot only of an object private to this thread
+   (IsRefPrivate(): counting reference, count = 1), and never a pointer to the object itself *)
+Definition resolve_w (h : list obj) (stk : list ref) (l : loc) (v : option nat) : option (rloc * ref) :=
   match l with
   | LStk i => if i <? length stk then Some (RStk i, nth i stk None) else None
   | LMem i j =>
       match nth i stk None with
-      | Some q =>
+      | Some (q, true) =>
           if (j <? length (o_mem (get_obj h q))) && (o_cnt (get_obj h q) =? 1) && negb (opt_eqb v (Some q))
           then Some (RMem q j, nth j (o_mem (get_obj h q)) None) else None
-      | None => None
+      | _ => None
       end
   end.
 
@@ -159,44 +172,66 @@ Definition rloc_eqb (a b : rloc) : bool :=
 
 (* ---------------------------------------------------------------- expansion of operations *)
 
-(* ConstRef::SetRef(item) on slot [dst] currently holding [q]; repaired order *)
-Definition setref_acts (dst : rloc) (q p : option nat) (src : option rloc) : list act :=
-  if opt_eqb p q then []
-  else match p with
-       | Some o => [AInc o src] ++ (match q with Some _ => [AUnref dst] | None => [] end) ++ [AStore dst p]
-       | None => match q with Some _ => [AUnref dst] | None => [] end
-       end.
+Definition unref_acts (dst : rloc) (q : ref) : list act :=
+  match q with Some (_, true) => [AUnref dst] | _ => [] end.
 
-(* the unrepaired order: UnrefItem ; store ; RefItem *)
-Definition setref_old_acts (dst : rloc) (q p : option nat) (src : option rloc) : list act :=
-  if opt_eqb p q then []
-  else match p with
-       | Some o => (match q with Some _ => [AUnref dst] | None => [] end) ++ [AStore dst p; AInc o src]
-       | None => match q with Some _ => [AUnref dst] | None => [] end
-       end.
-
-Definition castassign_acts (dst : rloc) (q p : option nat) (src : option rloc) : list act :=
+(* ConstRef::SetRef(item, c) on slot [dst] currently holding [q]; repaired order *)
+Definition setref_acts (dst : rloc) (q : ref) (p : option nat) (c : bool) (src : option rloc) : list act :=
   match p with
-  | Some o => [AIncSwap dst o src]
-  | None => match q with Some _ => [AUnref dst] | None => [] end
+  | None => (* SetStatus -> Reset *)
+      match q with Some (_, true) => [AUnref dst] | Some (_, false) => [AStore dst None] | None => [] end
+  | Some o =>
+      if opt_eqb (ptr q) (Some o) then
+        match counting q, c with
+        | false, true => [AInc o src; AStore dst (Some (o, true))]     (* start counting *)
+        | true, false => [AUncount dst]                                (* stop counting, never releases *)
+        | _, _ => []
+        end
+      else (if c then [AInc o src] else []) ++ unref_acts dst q ++ [AStore dst (Some (o, c))]
+  end.
+
+(* the unrepaired order of the switch-items branch: UnrefItem ; store ; RefItem *)
+Definition setref_old_acts (dst : rloc) (q : ref) (p : option nat) (c : bool) (src : option rloc) : list act :=
+  match p with
+  | Some o =>
+      if opt_eqb (ptr q) (Some o) then setref_acts dst q p c src
+      else unref_acts dst q ++ [AStore dst (Some (o, c))] ++ (if c then [AInc o src] else [])
+  | None => setref_acts dst q p c src
+  end.
+
+(* dst = CastAwayConstFromRef(src): a temporary takes (p,c), move assignment swaps, the temporary's
+   destructor unreferences the old content *)
+Definition castassign_acts (dst : rloc) (q : ref) (p : option nat) (c : bool) (src : option rloc) : list act :=
+  match p with
+  | Some o => [AIncSwap dst o c src]
+  | None => match q with Some (_, true) => [AUnref dst] | Some (_, false) => [AStore dst None] | None => [] end
   end.
 
 (* result of the local beginning of an operation: new heap (ONew heap / OSetVal / OSwap write),
    new stack, the actions, ok flag *)
-Definition begin_op (K : nat) (h : list obj) (stk : list (option nat)) (o : op)
-  : list obj * list (option nat) * list act * bool :=
+Definition begin_op (K : nat) (h : list obj) (stk : list ref) (o : op)
+  : list obj * list ref * list act * bool :=
   match o with
   | ONew i pooled =>
       if i <? length stk then
         if pooled then (h, stk, [APoolObt (RStk i)], true)
         else let id := length h in
-             (h ++ [born (fresh_obj K false Dead)], stk, setref_acts (RStk i) (nth i stk None) (Some id) None, true)
+             (h ++ [born (fresh_obj K false Dead)], stk, setref_acts (RStk i) (nth i stk None) (Some id) true None, true)
       else (h, stk, [], false)
   | OAssign dst src =>
       match resolve_r h stk src with
       | Some (rs, p) =>
-          match resolve_w h stk dst p with
-          | Some (rd, q) => (h, stk, setref_acts rd q p (Some rs), true)
+          match resolve_w h stk dst (ptr p) with
+          | Some (rd, q) => (h, stk, setref_acts rd q (ptr p) (counting p) (Some rs), true)
+          | None => (h, stk, [], false)
+          end
+      | None => (h, stk, [], false)
+      end
+  | OAlias dst src =>
+      match resolve_r h stk src with
+      | Some (rs, p) =>
+          match resolve_w h stk dst (ptr p) with
+          | Some (rd, q) => (h, stk, setref_acts rd q (ptr p) false (Some rs), true)
           | None => (h, stk, [], false)
           end
       | None => (h, stk, [], false)
@@ -204,21 +239,21 @@ Definition begin_op (K : nat) (h : list obj) (stk : list (option nat)) (o : op)
   | OAssignOld dst src =>
       match resolve_r h stk src with
       | Some (rs, p) =>
-          match resolve_w h stk dst p with
-          | Some (rd, q) => (h, stk, setref_old_acts rd q p (Some rs), true)
+          match resolve_w h stk dst (ptr p) with
+          | Some (rd, q) => (h, stk, setref_old_acts rd q (ptr p) (counting p) (Some rs), true)
           | None => (h, stk, [], false)
           end
       | None => (h, stk, [], false)
       end
   | OReset l =>
       match resolve_w h stk l None with
-      | Some (rl, q) => (h, stk, match q with Some _ => [AUnref rl] | None => [] end, true)
+      | Some (rl, q) => (h, stk, setref_acts rl q None false None, true)
       | None => (h, stk, [], false)
       end
   | OSwap a b =>
       match resolve_r h stk a, resolve_r h stk b with
       | Some (_, va), Some (_, vb) =>
-          match resolve_w h stk a vb, resolve_w h stk b va with
+          match resolve_w h stk a (ptr vb), resolve_w h stk b (ptr va) with
           | Some (ra, _), Some (rb, _) =>
               if rloc_eqb ra rb then (h, stk, [], true)
               else let '(h1, stk1) := write_slot h stk ra vb in
@@ -231,16 +266,16 @@ Definition begin_op (K : nat) (h : list obj) (stk : list (option nat)) (o : op)
   | OConstCast dst src =>
       match resolve_r h stk src with
       | Some (rs, p) =>
-          match resolve_w h stk dst p with
-          | Some (rd, q) => (h, stk, castassign_acts rd q p (Some rs), true)
+          match resolve_w h stk dst (ptr p) with
+          | Some (rd, q) => (h, stk, castassign_acts rd q (ptr p) (counting p) (Some rs), true)
           | None => (h, stk, [], false)
           end
       | None => (h, stk, [], false)
       end
   | OSetVal i v =>
       match nth i stk None with
-      | Some q => if o_cnt (get_obj h q) =? 1 then (upd h q (set_val (get_obj h q) v), stk, [], true) else (h, stk, [], false)
-      | None => (h, stk, [], false)
+      | Some (q, true) => if o_cnt (get_obj h q) =? 1 then (upd h q (set_val (get_obj h q) v), stk, [], true) else (h, stk, [], false)
+      | _ => (h, stk, [], false)
       end
   | ODrain => (h, stk, [ADrain], true)
   end.
@@ -255,6 +290,11 @@ Definition dec_obj (h : list obj) (q : nat) : option (list obj * bool) :=
     if c =? 0 then Some (upd h q (dying (set_cnt ob 0)), true)
     else Some (upd h q (set_cnt ob c), false)
   else None.
+
+(* UnrefItemAux(item, false): decrement, never release *)
+Definition dec_keep (h : list obj) (q : nat) : option (list obj) :=
+  let ob := get_obj h q in
+  if is_live ob && (0 <? o_cnt ob) then Some (upd h q (set_cnt ob (o_cnt ob - 1))) else None.
 
 Definition inc_obj (h : list obj) (q : nat) : option (list obj) :=
   let ob := get_obj h q in
@@ -281,8 +321,8 @@ Definition is_default (ob : obj) : bool := (o_cnt ob =? 0) && all_none (o_mem ob
 
 (* one action of a thread whose stack is stk and whose remaining actions are rest.
    Result: heap, stack, new todo, pool, event *)
-Definition do_act (N K : nat) (h : list obj) (p : pool) (stk : list (option nat)) (a : act) (rest : list act)
-  : list obj * list (option nat) * list act * pool * event :=
+Definition do_act (N K : nat) (h : list obj) (p : pool) (stk : list ref) (a : act) (rest : list act)
+  : list obj * list ref * list act * pool * event :=
   match a with
   | AInc o _ =>
       match inc_obj h o with
@@ -291,23 +331,33 @@ Definition do_act (N K : nat) (h : list obj) (p : pool) (stk : list (option nat)
       end
   | AUnref l =>
       match read_slot h stk l with
-      | None => (h, stk, rest, p, EvNone)
-      | Some q =>
+      | Some (q, true) =>
           let '(h1, stk1) := write_slot h stk l None in
           match dec_obj h1 q with
           | Some (h2, true) => (h2, stk1, ARel q 0 :: rest, p, EvDec q true)
           | Some (h2, false) => (h2, stk1, rest, p, EvDec q false)
           | None => (h1, stk1, rest, p, EvBad 2)
           end
+      | _ => let '(h1, stk1) := write_slot h stk l None in (h1, stk1, rest, p, EvNone)
+      end
+  | AUncount l =>
+      match read_slot h stk l with
+      | Some (q, true) =>
+          let '(h1, stk1) := write_slot h stk l (Some (q, false)) in
+          match dec_keep h1 q with
+          | Some h2 => (h2, stk1, rest, p, EvDec q false)
+          | None => (h1, stk1, rest, p, EvBad 2)
+          end
+      | _ => (h, stk, rest, p, EvNone)
       end
   | AStore l v =>
       let '(h1, stk1) := write_slot h stk l v in (h1, stk1, rest, p, EvNone)
-  | AIncSwap l o _ =>
-      match inc_obj h o with
+  | AIncSwap l o c _ =>
+      match (if c then inc_obj h o else Some h) with
       | Some h' =>
           let old := read_slot h' stk l in
-          let '(h1, stk1) := write_slot h' stk l (Some o) in
-          (h1, stk1, (match old with Some q => [ADec q] | None => [] end) ++ rest, p, EvInc o)
+          let '(h1, stk1) := write_slot h' stk l (Some (o, c)) in
+          (h1, stk1, (match old with Some (q, true) => [ADec q] | _ => [] end) ++ rest, p, if c then EvInc o else EvNone)
       | None => (h, stk, rest, p, EvBad 1)
       end
   | ADec q =>
@@ -322,14 +372,14 @@ Definition do_act (N K : nat) (h : list obj) (p : pool) (stk : list (option nat)
       else if n <? length (o_mem ob) then
         let j := rel_index ob n in
         match nth j (o_mem ob) None with
-        | None => (h, stk, ARel o (S n) :: rest, p, EvNone)
-        | Some q =>
+        | Some (q, true) =>
             let h1 := upd h o (set_mem ob (upd (o_mem ob) j None)) in
             match dec_obj h1 q with
             | Some (h2, true) => (h2, stk, ARel q 0 :: ARel o (S n) :: rest, p, EvDec q true)
             | Some (h2, false) => (h2, stk, ARel o (S n) :: rest, p, EvDec q false)
             | None => (h1, stk, ARel o (S n) :: rest, p, EvBad 2)
             end
+        | _ => (upd h o (set_mem ob (upd (o_mem ob) j None)), stk, ARel o (S n) :: rest, p, EvNone)
         end
       else if o_pooled ob then
         (* ReleaseObject: payload reset, SetManager(NULL), critical section *)
@@ -345,7 +395,7 @@ Definition do_act (N K : nat) (h : list obj) (p : pool) (stk : list (option nat)
       let h1 := match created with Some _ => h ++ repeat (fresh_obj K true Pooled) N | None => h end in
       let ob := get_obj h1 o in
       if is_pooled_st ob && is_default ob then
-        (upd h1 o (born ob), stk, setref_acts l (read_slot h1 stk l) (Some o) None ++ rest, p',
+        (upd h1 o (born ob), stk, setref_acts l (read_slot h1 stk l) (Some o) true None ++ rest, p',
          EvObtained o (match created with Some _ => true | None => false end))
       else (h1, stk, rest, p', EvBad 6)
   | ADrain =>
